@@ -102,7 +102,7 @@ func TestVerifBounded_C15_PanicContained(t *testing.T) {
 			sock.in <- b
 			// the answer for this id
 			var got map[string]interface{}
-			deadline := time.After(2 * time.Second)
+			deadline := time.After(5 * time.Second)
 		wait:
 			for {
 				select {
@@ -117,7 +117,7 @@ func TestVerifBounded_C15_PanicContained(t *testing.T) {
 			}
 			switch {
 			case got == nil:
-				fail(what, fmt.Sprintf("request %s (%s %s) got no answer within 2s: an earlier failing request left the connection unusable", id, r.kind, r.query))
+				fail(what, fmt.Sprintf("request %s (%s %s) got no answer within 5s: an earlier failing request left the connection unusable", id, r.kind, r.query))
 				ok = false
 			case r.healthy && got["type"] == "error":
 				fail(what, fmt.Sprintf("healthy request %s answered with an error: %v", r.query, got["message"]))
@@ -137,7 +137,7 @@ func TestVerifBounded_C15_PanicContained(t *testing.T) {
 			}
 			counter++
 			res.Strobe()
-			deadline := time.After(2 * time.Second)
+			deadline := time.After(5 * time.Second)
 			updated := false
 		wait2:
 			for {
